@@ -508,6 +508,25 @@ class FirstMatch(_Bodies):
                         if isinstance(y, ast.Name):
                             y.ctx = ast.Store()
                     continue
+            # for t in it: assert [not] E, msg   ->   assert all(E for t in it) / not any(E for t in it), msg     (msg does not mention
+            # t, and t is not used after the loop: the quantified form leaks nothing)
+            if self.fn and isinstance(st, ast.For) and not st.orelse and len(st.body) == 1 and isinstance(st.body[0], ast.Assert):
+                asr = st.body[0]
+                bound = {y.id for y in ast.walk(st.target) if isinstance(y, ast.Name)}
+                inside = {id(y) for y in ast.walk(st)}
+                leaks = any(isinstance(y, ast.Name) and y.id in bound and id(y) not in inside for y in ast.walk(self.fn[-1]))
+                in_msg = asr.msg is not None and any(isinstance(y, ast.Name) and y.id in bound for y in ast.walk(asr.msg))
+                if not leaks and not in_msg:
+                    neg = isinstance(asr.test, ast.UnaryOp) and isinstance(asr.test.op, ast.Not)
+                    elt = asr.test.operand if neg else asr.test
+                    for y in ast.walk(st.target):
+                        if isinstance(y, ast.Name):
+                            y.ctx = ast.Store()
+                    ge = ast.GeneratorExp(elt=elt, generators=[ast.comprehension(target=st.target, iter=st.iter, ifs=[], is_async=0)])
+                    call = ast.Call(func=ast.Name(id="any" if neg else "all", ctx=ast.Load()), args=[ge], keywords=[])
+                    test = ast.UnaryOp(op=ast.Not(), operand=call) if neg else call
+                    out.append(_loc(ast.Assert(test=test, msg=asr.msg), st))
+                    continue
             # d.update({K: V for t in it [if c]})   ->   for t in it: [if c:] d[K] = V      (d not mentioned in the comprehension)
             c = st.value if isinstance(st, ast.Expr) else None
             if self.fn and isinstance(c, ast.Call) and isinstance(c.func, ast.Attribute) and c.func.attr == "update" and len(c.args) == 1 \
